@@ -43,7 +43,8 @@ SEED_TABLE = {
     OD + "sketch": [dict(callee="seed_from_u64", allowed=["param #1:*", "self.b_hasher"], required=["param #1:*"])],
     RD + "sketch": [dict(callee="seed_from_u64", allowed=["param #1:*", "self.b_hasher"], required=["param #1:*"])],
     OD + "densify": [dict(callee="seed_from_u64", allowed=["len(self.hsketch)"], required=["len(self.hsketch)"])],
-    RD + "densify": [dict(callee="seed_from_u64", allowed=["len(self.hsketch)"], required=["len(self.hsketch)"])],
+    # the pass counter of the reverse densification is advanced once per sweep, under `while nb_empty > 0`
+    RD + "densify": [dict(callee="seed_from_u64", allowed=["len(self.hsketch)", "self.nb_empty"], required=["len(self.hsketch)"])],
 }
 
 GEN_OK = ["param #1:*", "self.b_hasher", "call num::one*", "call num::zero*", "call rand_distr::Uniform*",
